@@ -101,6 +101,12 @@ def run_chain(rnd, sampler_kind, tier):
         s = Snap(seed=1)
         mkind = rnd.choice(["unit", "diag", "full"])
         mass, mstr, mdesc = make_mass(rnd, mkind, d)
+        if random.Random(seed ^ 0x2545F491).random() < 0.2:
+            # "all mass matrices": the adaptive one as well - its metric changes while the trajectory is integrated; both energies of the test are
+            # kinetic energies under the mass matrix as it is when the test is made
+            with quiet(), np.errstate(all="ignore"):
+                mass = MM.BFGS(d, q0.copy(), np.array(dist.gradient(q0.copy()), dtype=float))
+            mkind, mdesc = "bfgs", {"mass": "bfgs"}
         korig = calls.wrap(mass, "kinetic_energy")
         calls.wrap(mass, "generate_momentum")
         desc_kinetic = korig
@@ -203,6 +209,12 @@ def check_transitions(desc, trans, sampler_kind, userstep, st, findings, reqs, m
                 with np.errstate(all="ignore"):
                     ck = float(kinetic(p_cur.copy()))
             pk = last_value(calls, "kinetic_energy", pre["p1"])
+            if ck is not None and "k0_at_test" in pre and not (common.bits_equal(float(ck), pre["k0_at_test"]) or common.close(float(ck), pre["k0_at_test"], 1e-12, 0.0)
+                                                               or (ck != ck and pre["k0_at_test"] != pre["k0_at_test"])):
+                findings.append(Finding("C02", f"HMC ({desc.get('mass', {}).get('mass')} mass): the kinetic energy used for the current state ({float(ck)!r}) is not the kinetic energy of the "
+                                        f"current momentum under the mass matrix at the acceptance test ({pre['k0_at_test']!r}): the two energies of the test belong to different metrics",
+                                        {"kind": "rule", "sampler": "HMC", "what": "current kinetic energy under another metric"},
+                                        {"oracle": "kinetic-at-test", "chain": desc, "transition": pre["index"], "used": float(ck), "at_test": pre["k0_at_test"]}))
             if None in (cx, px, ck, pk):
                 st.case(stim)
                 st.disagree(stim, "misfit and kinetic energy evaluated at current and proposed state", [cx, px, ck, pk],
